@@ -688,3 +688,18 @@ unit(id="setifelse.recreate", src=CF + "set_if_else.rs", path=[("impl", "Recreat
           f"&& r->Ok_0->SetIfElse_0.else_instruction.instruction == el "
           f"&& {RS9} == rec_st(self.else_instruction.instruction, {RX_ST}) }}) }}) }})"),
      ])
+
+# ---------------------------------------------------------------- unary fold functions ----
+PREFIX = "src/instruction/prefix_op.rs"
+for _m, _op in (("not", "Not"), ("unary_minus", "UnaryMinus")):
+    _rw = [("var!(-num)", "Variable::from(-num)")] if _m == "unary_minus" else []
+    unit(id=f"{_m}.exec.pure", src=PREFIX, path=[("mod", _m), ("fn", "exec")], mod=_m, stub_only=True, rewrites=_rw,
+         ensures=[(f"{_m}.exec.pure", [], f"r == op_{_m}(variable)")])
+    unit(id=f"{_m}.create_from_instruction", src=PREFIX, path=[("mod", _m), ("fn", "create_from_instruction")], mod=_m,
+         stubs=[f"{_m}.exec.pure"], fragments=["opspecs"],
+         ensures=[
+             (f"{_m}.fold1.constant_equals_exec", ["C04", "C08"],
+              f"instruction is Variable ==> r == Instruction::Variable(op_{_m}(instruction->Variable_0))"),
+             (f"{_m}.fold1.non_constant_rebuilt_same_operator", ["C04", "C08"],
+              f"!(instruction is Variable) ==> r == Instruction::UnaryOperation(Arc::new(UnaryOperation {{ instruction, op: UnaryOperator::{_op} }}))"),
+         ])
